@@ -39,8 +39,11 @@ impl<S: Runtime + 'static> Loop<'_, S> {
         while super::evaluate_condition(self.env, self.condition_command).await?
             == self.expected_condition
         {
-            self.body.execute(self.env).await?;
+            let result = self.body.execute(self.env).await;
+            // The body has been executed, possibly cut short by `continue`:
+            // its exit status is that of the last command it ran.
             self.exit_status = self.env.exit_status;
+            result?;
         }
         Continue(())
     }
